@@ -250,6 +250,10 @@ def model(sc, raw_rows):
     rows = [list(r) for r in raw_rows]
     o = sc.get('order')
     if o:
+        for r in rows:
+            if any(k is None for k in sort_key_of(sc, r)):
+                # ordering by a missing value is an error in the Python engine and engine-specific in JS: not this property's subject
+                raise TypeError('None in sort key')
         if o.get('exprs'):
             nk = len(o['exprs'])
             rows = sorted(rows, key=lambda r: tuple(r[len(r) - nk:]))
@@ -285,9 +289,15 @@ def model(sc, raw_rows):
 
 # ----------------------------------------------------------------------------- generation
 
-def gen_rows(rng, n):
+def gen_rows(rng, n, ragged=False):
     c1 = ['1', '2', '3', '10', '2', '1']
-    return [[rng.choice(c1), rng.choice(C2), rng.choice(C3)] for _ in range(n)]
+    rows = [[rng.choice(c1), rng.choice(C2), rng.choice(C3)] for _ in range(n)]
+    if ragged:
+        # short records: the missing fields read as None / null
+        for r in rows:
+            if rng.random() < 0.4:
+                del r[rng.choice([1, 2]):]
+    return rows
 
 
 def generate(rng, tier, idx):
@@ -326,7 +336,7 @@ def generate(rng, tier, idx):
     pr = rng.random()
     buffering = is_buffering(sc)
     if pr < 0.5 or buffering or sc['bound'] is None:
-        sc['producer'] = {'type': 'finite', 'rows': gen_rows(rng, rng.choice([0, 1, 2, 3, 4, 5, 6, 8]))}
+        sc['producer'] = {'type': 'finite', 'rows': gen_rows(rng, rng.choice([0, 1, 2, 3, 4, 5, 6, 8]), ragged=rng.random() < 0.15)}
     elif pr < 0.9:
         shape = rng.choice(['dense', 'sparse', 'sparse', 'periodic'])
         sc['producer'] = {'type': 'endless', 'shape': shape, 'k1': rng.choice([1, 3, 7]), 'p1': rng.choice([2, 3, 5, 11]) if shape != 'dense' else 1000003,
